@@ -222,7 +222,7 @@ RULES = [
     ("WITNESS", rule_witness, 0),
     ("CONSTRUCT", rule_construct, 2),
     ("EXPOSE", rule_expose, 10),
-    ("BM-ORDER", rule_order, 20),
+    ("BM-ORDER", rule_order, 12),
     ("NAME-GUARD", rule_guards, 1),
     ("RETAIN-PRED", lambda ctx: None, 3),
     ("TYPE-VALID", rule_typevalid, 4),
